@@ -20,7 +20,10 @@ MANIFEST = dict(
          "theorem C16_source_shape) and the model is tied to the tree by a differential run of the "
          "real ParseFlowDesc / newFlowDesc / convertSlice against the model on grammar-derived strings, near-miss mutations "
          "and arbitrary octet strings, evaluated inside Coq; the specification (denote, reference decoder) is also applied as "
-         "a monitor to what the implementation returned, and go-gtp5gnl's DecodeFlowDesc is run on the encoded attributes.",
+         "a monitor to what the implementation returned, and go-gtp5gnl's DecodeFlowDesc is run on the encoded attributes.  "
+         "Which PDR is uplink is decided in newPdi: the order in which it packs filters (while or after scanning the PDI) is read "
+         "from the source, theorem C16_pdi_direction_any_ie_order shows every filter is exchanged iff the PDI's Source Interface "
+         "is Access wherever that IE stands, and the real newPdi is run on PDIs with the IEs in every order.",
     note="Strings with an octet >= 0x80 (unicode.IsSpace territory) or a ':' in an address token (IPv6) are outside the "
          "model: for those only 'no panic' and pack/unpack consistency are checked.  Go's strings/strconv/net are modelled, not "
          "verified; the control flow of the parser is hand-modelled and tied by the correspondence run only.",
@@ -488,6 +491,101 @@ def evaluate_conv(ctx, cases, impl):
     return common.parse_N_list(res["mism"]), common.parse_N_list(res["monf"]), log
 
 
+# ---------------------------------------------------------------- the PDI around the filter (newPdi)
+
+def pdi_cases(ctx):
+    """PDIs with 0..3 SDF filters, 0..2 Source Interface IEs (mostly exactly one, as TS 29.244 requires) and other
+    IEs, in every order; the flow descriptions are grammar rules whose source and destination differ"""
+    rnd = random.Random(ctx.seed + 1616)
+    n = 300 if ctx.tier == "quick" else 4000
+    out = []
+    for k in range(n):
+        items = []
+        for j in range(rnd.choice([1, 1, 2, 3])):
+            r = gen_rule(rnd, rnd.randrange(10 ** 6))
+            items.append(["sdf", render(r, gen_spacing(rnd, plain=True)).hex()])
+        for _ in range(rnd.choice([0, 1, 1, 1, 1, 1, 1, 2])):
+            items.append(["srcif", rnd.choice([0, 1, 1, 2, 3])])
+        for _ in range(rnd.choice([0, 0, 1, 2])):
+            items.append(["other"])
+        rnd.shuffle(items)
+        out.append(items)
+    # every order of {filter, Source Interface v}, v = Access / Core / SGi-LAN / CP-function
+    for v in (0, 1, 2, 3):
+        f1 = ["sdf", b"permit out 17 from 10.0.0.0/8 80 to 192.168.1.1 443".hex()]
+        f2 = ["sdf", b"permit out ip from 1.2.3.4 to any".hex()]
+        out += [[f1, ["srcif", v]], [["srcif", v], f1], [f1, ["srcif", v], f2], [["other"], f1, f2, ["srcif", v]]]
+    return out
+
+
+def evaluate_pdi(ctx, cases, impl):
+    """observed exchange flag per filter (which of newFlowDesc(s, true/false) the PDI attribute equals), compared with
+    the model pdi_sdf_swaps under the evaluation order read from the source, and with the specification: exchanged
+    iff the PDI's (single) Source Interface is Access"""
+    items, spec_bad, ambiguous, skipped = [], [], 0, 0
+    idx = []
+    for ci, (c, o) in enumerate(zip(cases, impl)):
+        if o["res"] != "ok":
+            spec_bad.append((ci, "newPdi: " + o["res"]))
+            continue
+        sdfs = o.get("sdfs") or []
+        sw, ns = o.get("swap") or [], o.get("noswap") or []
+        accepted = [j for j in range(len(sw)) if sw[j] is not None and ns[j] is not None]
+        if len(accepted) != len(sdfs):
+            spec_bad.append((ci, "newPdi emitted %d SDF filters for %d acceptable flow descriptions" % (len(sdfs), len(accepted))))
+            continue
+        obs = []
+        bad = False
+        for pos, j in enumerate(accepted):
+            a, b, got = sw[j], ns[j], sdfs[pos]
+            if a == b:
+                ambiguous += 1
+                obs.append(None)
+            elif got == a:
+                obs.append(True)
+            elif got == b:
+                obs.append(False)
+            else:
+                spec_bad.append((ci, "filter %d of the PDI is neither newFlowDesc(s, true) nor newFlowDesc(s, false)" % pos))
+                bad = True
+        if bad:
+            continue
+        srcifs = [it[1] for it in c if it[0] == "srcif"]
+        if len(srcifs) == 1:
+            for pos, x in enumerate(obs):
+                if x is not None and x != (srcifs[0] == 0):
+                    spec_bad.append((ci, "Source Interface %d (%s): filter %d packed %s the source/destination exchange"
+                                     % (srcifs[0], "Access, uplink" if srcifs[0] == 0 else "not Access", pos, "with" if x else "without")))
+                    break
+        # model comparison: items with the rejected flow descriptions left out
+        acc_set, k, its = set(accepted), 0, []
+        for it in c:
+            if it[0] == "sdf":
+                if k in acc_set:
+                    its.append("PSdf %d" % k)
+                k += 1
+            elif it[0] == "srcif":
+                its.append("PSrcIf %d" % it[1])
+            else:
+                its.append("POther")
+        want = ["(%d, %s)" % (j, "None" if x is None else "Some true" if x else "Some false") for j, x in zip(accepted, obs)]
+        items.append("(%s, %s)" % (clist(its), clist(want)))
+        idx.append(ci)
+    body = ("Definition agrees (c : list pdi_item * list (N * option bool)) : bool :=\n"
+            "  let m := pdi_sdf_swaps fd_pdi_sdf_in_scan (fst c) in\n"
+            "  Nat.eqb (List.length m) (List.length (snd c)) &&\n"
+            "  forallb (fun p => match p with ((k, b), (k', ob)) => N.eqb k k' && match ob with None => true | Some b' => Bool.eqb b b' end end)\n"
+            "          (combine m (snd c)).\n"
+            "Fixpoint bad_idx {A} (f : A -> bool) (l : list A) (i : N) : list N :=\n"
+            "  match l with [] => [] | x :: r => (if f x then [] else [i]) ++ bad_idx f r (i + 1) end.\n"
+            "Definition cases : list (list pdi_item * list (N * option bool)) := \n" + clist(items) + ".\n"
+            "Definition mism := Eval vm_compute in bad_idx agrees cases 0.\n")
+    res, log = common.run_coq_cases(ctx, "cases_c16_pdi", body, REQUIRES + ["FlowDescGen", "Pdi"], ["mism"])
+    if res is None:
+        return None, spec_bad, ambiguous, log
+    return [idx[i] for i in common.parse_N_list(res["mism"])], spec_bad, ambiguous, log
+
+
 def show(c):
     b = bytes.fromhex(c["s"])
     return dict(c, text=b.decode("latin-1"))
@@ -534,12 +632,27 @@ def run(ctx, replay=None):
         if cmism is None:
             broken.append("convert_slice cases no longer compile: " + clog[-800:])
             cmism, cmonf = [], []
+    pmism, pspec, pamb, pcases, pimpl = [], [], 0, [], []
+    if not replay:
+        pcases = pdi_cases(ctx)
+        pimpl, log = common.run_harness(ctx, info["harness"], "pdi", pcases)
+        if pimpl is None:
+            ctx.violation({"broken": "harness run (pdi) failed", "log": log[-2000:]}, no_input=True)
+            return ctx.finish(coverage, [])
+        pmism, pspec, pamb, clog = evaluate_pdi(ctx, pcases, pimpl)
+        if pmism is None:
+            broken.append("PDI cases no longer compile: " + clog[-800:])
+            pmism = []
     kinds = {}
     for c, r in zip(cases, impl):
         k = kinds.setdefault(c["kind"], {"n": 0, "accepted": 0, "rejected": 0, "panic": 0})
         k["n"] += 1
         k["accepted" if r["parse"] == "ok" else "rejected" if r["parse"] == "err" else "panic"] += 1
-    coverage["evaluations"] = len(cases) + len(ccases)
+    coverage["evaluations"] = len(cases) + len(ccases) + len(pcases)
+    coverage["pdi_cases"] = {"n": len(pcases), "filters_with_equal_source_and_destination": pamb,
+                             "filter_before_source_interface": sum(1 for c in pcases if any(
+                                 it[0] == "sdf" and any(x[0] == "srcif" for x in c[i + 1:]) for i, it in enumerate(c))),
+                             "one_source_interface": sum(1 for c in pcases if sum(1 for it in c if it[0] == "srcif") == 1)}
     coverage["distinct_nontrivial"] = len({json.dumps(r.get("parsed"), sort_keys=True) + str(c["swap"])
                                            for c, r in zip(cases, impl) if r["parse"] == "ok"})
     coverage["rule"] = ("cases = (octet string, uplink flag); grammar: rule index k cycles protocol k mod 257 (256 = ip), address kind/"
@@ -550,8 +663,8 @@ def run(ctx, replay=None):
     coverage["unmodelled_inputs"] = len(unmo)
     coverage["samples"] = [dict(text=bytes.fromhex(c["s"]).decode("latin-1"), swap=c["swap"], parse=r["parse"], parsed=r.get("parsed"))
                            for c, r in list(zip(cases, impl))[:3]]
-    coverage["model_impl_mismatches"] = len(mism) + len(cmism)
-    coverage["monitor_failures"] = len(monf) + len(cmonf)
+    coverage["model_impl_mismatches"] = len(mism) + len(cmism) + len(pmism)
+    coverage["monitor_failures"] = len(monf) + len(cmonf) + len(pspec)
     # report the shortest failing inputs (selection instead of shrinking: the generators emit many short cases)
     for i in sorted(monf, key=lambda j: len(cases[j]["s"]))[:2]:
         c = cases[i]
@@ -560,8 +673,16 @@ def run(ctx, replay=None):
                        "replay_cmd": "python3 check.py C16 --replay <this file>"})
     for i in cmonf[:1]:
         ctx.violation({"property": "C16", "what": "unpack (convertSlice ports) <> ports", "ports": ccases[i], "impl_bytes": cimpl[i]})
+    def show_pdi(c):
+        return [[it[0], bytes.fromhex(it[1]).decode("latin-1")] if it[0] == "sdf" else it for it in c]
+    for ci, why in sorted(pspec, key=lambda x: len(pcases[x[0]]))[:1]:
+        ctx.violation({"property": "C16", "what": "newPdi: " + why, "pdi_ies_in_order": show_pdi(pcases[ci]), "impl": pimpl[ci]})
+    if pmism and not pspec:
+        ci = sorted(pmism, key=lambda j: len(pcases[j]))[0]
+        ctx.violation({"property": "C16", "what": "newPdi disagrees with the model pdi_sdf_swaps on which filters are exchanged",
+                       "pdi_ies_in_order": show_pdi(pcases[ci]), "impl": pimpl[ci]})
     msel = sorted(mism, key=lambda j: len(cases[j]["s"]))[:3]
-    if not monf and not cmonf and (mism or cmism or broken):
+    if not monf and not cmonf and not pspec and not pmism and (mism or cmism or broken):
         ctx.violation({"property": "C16", "broken_obligations": broken,
                        "correspondence": "model parse_flow_desc/new_flow_desc <> implementation (or reference decoder <> DecodeFlowDesc)" if mism
                        else "model convert_slice <> implementation" if cmism else None,
